@@ -71,7 +71,7 @@ func main() {
 	r := evidence.New("C16", "exploration")
 	r.Rule("case = (2-4 registry hosts out of a pool incl. same name/different port, each with own credential {user+password, +refresh token, refresh only, static access token, wrong password, none}, " +
 		"scheme {Basic, Bearer, open, unknown}, realm on {own host, foreign token host (possibly shared), another registry's host}; one auth.Client with cache flavour {none, NewCache, NewSingleContextCache}, ForceAttemptOAuth2 on/off). " +
-		"seq: history of 8-30 ops (requests GET/HEAD/POST/PUT/DELETE/ping/catalog/mount with scope hints {none, exact, oddly written, superset, extra repo, for another host, global}, token expiry, scheme change, realm move). " +
+		"Repository names include host:port/ prefixes and several colons (scope type ends at the first colon, actions start after the last). seq: history of 8-30 ops (requests GET/HEAD/POST/PUT/DELETE/ping/catalog/mount with scope hints {none, exact, oddly written, superset, extra repo, for another host, global}, token expiry, scheme change, realm move). " +
 		"conc: warm-up, then rounds of groups of identical cold requests released together with background traffic to other hosts; the token endpoint or the credential helper is held until all entered Cache.Set, then nobody / the fetch owner (once or twice in a row) / a waiter has its context ended by the harness with context.Canceled or context.DeadlineExceeded (manual contexts, no wall clock); plus unsynchronised storms and, for the single-context cache, probes of 3-8 concurrent requests with different scopes to one host that enter the host-keyed Cache.Set together (spin barrier in the hook). " +
 		"Every request at the innermost transport is scanned for every secret (raw, base64, form/query-decoded); every returned response is matched with the registry model's last answer. " +
 		"distinct = hash(flavour, force, per-registry (scheme, realm kind, credential kind), op / round shapes); non-trivial = at least one send happened while the client held a secret or token of another host, and (seq) a cached token was presented by a request other than the one that fetched it, or the flavour is none, " +
@@ -178,6 +178,7 @@ type reqSpec struct {
 var lastEnv *env
 
 type env struct {
+	colonRepos bool
 	probe   atomic.Pointer[barrier]
 	caseIdx int
 	rng     *rand.Rand
@@ -221,7 +222,20 @@ func newEnv(rng *rand.Rand, phase string, seed int64, i int, res *worker.Result)
 	}
 	e.force = rng.IntN(3) == 0
 	e.world = authmodel.NewWorld(uint64(seed)*1000003+uint64(i)*7+uint64(len(phase)), e.flavour)
-	e.repos = []string{"app", "team/app", "lib/base", "a/b/c"}[:2+rng.IntN(3)]
+	// repository names; some carry colons (a host:port/ prefix as mirrors and
+	// pull-through caches use, or several colons): in a scope string
+	// type:name:actions the type ends at the FIRST colon and the actions start
+	// after the LAST one
+	e.repos = shuffled(rng, []string{"app", "team/app", "lib/base", "a/b/c"})[:1+rng.IntN(3)]
+	e.repos = append(e.repos, shuffled(rng, []string{"mirror.local:5000/app", "cache:443/ns:stage/app", "proxy:8080/lib/base"})[:rng.IntN(3)]...)
+	if len(e.repos) < 2 {
+		e.repos = append(e.repos, "lib/extra")
+	}
+	for _, rp := range e.repos {
+		if strings.Contains(rp, ":") {
+			e.colonRepos = true
+		}
+	}
 
 	nReg := 2 + rng.IntN(3)
 	hosts := append([]string{}, hostPool...)
@@ -544,10 +558,10 @@ func (e *env) do(sp *reqSpec, wrap func(ctx context.Context, corr int) context.C
 			// AppendRepositoryScope for plain repository scopes, else WithScopesForHost
 			done := false
 			if len(hs) == 1 {
-				p := strings.Split(hs[0], ":")
-				if len(p) == 3 && p[0] == "repository" && p[2] != "" {
-					ref := registry.Reference{Registry: h, Repository: p[1]}
-					ctx = auth.AppendRepositoryScope(ctx, ref, strings.Split(p[2], ",")...)
+				first, last := strings.Index(hs[0], ":"), strings.LastIndex(hs[0], ":")
+				if first > 0 && last > first && hs[0][:first] == "repository" && hs[0][last+1:] != "" {
+					ref := registry.Reference{Registry: h, Repository: hs[0][first+1 : last]}
+					ctx = auth.AppendRepositoryScope(ctx, ref, strings.Split(hs[0][last+1:], ",")...)
 					done = true
 				}
 			}
@@ -696,6 +710,9 @@ func (e *env) finish(key string, nt bool) {
 	}
 	e.res.Count("hook_auth_cache_set_enter", e.hooks.Load())
 	e.res.Observe("client_and_world_configurations", e.caseKey())
+	if e.colonRepos {
+		e.res.Count("cases_with_colon_in_repository_names", 1)
+	}
 	opp := c["cross_host_opportunities"] > 0
 	reuse := c["token_reuses_by_other_request"] > 0 || e.flavour == "none"
 	e.res.Key = key
